@@ -36,9 +36,10 @@ _worker_ready = False
 
 def _init_worker():
     global _worker_ready
-    from .util import import_labella
+    from .util import import_labella, prepare_reimport
 
     import_labella()
+    prepare_reimport()
     _worker_ready = True
 
 
@@ -141,6 +142,7 @@ def run_batch(sim_name, base_seed, tier, max_runs, wall_cap, workers, chunk=25,
     done_chunks = {}
     absorb_next = start_index
     stop = False
+    found_violation = False
     with concurrent.futures.ProcessPoolExecutor(
         max_workers=workers, mp_context=ctx, initializer=_init_worker
     ) as ex:
@@ -169,6 +171,7 @@ def run_batch(sim_name, base_seed, tier, max_runs, wall_cap, workers, chunk=25,
                         for v in batch.violations
                     ):
                         stop = True
+                        found_violation = True
                 if not stop and time.monotonic() - t0 > wall_cap:
                     stop = True
                     batch.capped_by = "wall"
@@ -178,6 +181,16 @@ def run_batch(sim_name, base_seed, tier, max_runs, wall_cap, workers, chunk=25,
                     for fut in list(pending):
                         if fut.cancel():
                             pending.pop(fut)
+                    if found_violation and pending:
+                        # a violation is in hand: do not wait for in-flight
+                        # chunks (under a hanging mutant they can take minutes)
+                        for proc in list(getattr(ex, "_processes", {}).values()):
+                            try:
+                                proc.terminate()
+                            except Exception:
+                                pass
+                        pending.clear()
+                        break
         except BaseException:
             for fut in pending:
                 fut.cancel()
@@ -220,8 +233,9 @@ def minimise(sim, plan, violation, max_evals):
 
 
 def write_replay(sim, prop, plan, violation, original_ops):
-    os.makedirs(os.path.join(VERIF, "replays"), exist_ok=True)
-    path = os.path.join(VERIF, "replays", "%s-%d.json" % (prop, plan.get("seed", 0)))
+    rdir = os.environ.get("LABSIM_REPLAY_DIR", os.path.join(VERIF, "replays"))
+    os.makedirs(rdir, exist_ok=True)
+    path = os.path.join(rdir, "%s-%d.json" % (prop, plan.get("seed", 0)))
     doc = {
         "property": prop,
         "sim": sim.NAME,
@@ -359,8 +373,9 @@ def check(prop, tier, base_seed, workers=None):
     wall = time.monotonic() - t_start
     ev = build_evidence(sim, prop, tier, base_seed, batch, wall, reported, known_lines)
     ev["coverage"]["regression_replays_executed"] = regress_n
-    os.makedirs(os.path.join(VERIF, "evidence"), exist_ok=True)
-    with open(os.path.join(VERIF, "evidence", prop + ".json"), "w") as f:
+    edir = os.environ.get("LABSIM_EVIDENCE_DIR", os.path.join(VERIF, "evidence"))
+    os.makedirs(edir, exist_ok=True)
+    with open(os.path.join(edir, prop + ".json"), "w") as f:
         json.dump(ev, f, indent=1, sort_keys=True)
         f.write("\n")
     cov = ev["coverage"]
